@@ -292,7 +292,7 @@ func (p *parser) bin(min int) *node {
 			if left.op == "not" && lv == 3 {
 				panic(parseErr("open form: not a == b"))
 			}
-			if left.op == "-" && op == "^" {
+			if (left.op == "-" || left.op == "+") && op == "^" {
 				panic(parseErr("open form: -a ^ b"))
 			}
 		}
@@ -335,13 +335,10 @@ func (p *parser) name() string {
 }
 
 func (p *parser) unary() *node {
-	isMinus, isNot := p.isP("-"), p.isW("not")
+	isMinus, isNot := p.isP("-") || p.isP("+"), p.isW("not")
 	if isMinus || isNot {
+		op := p.peek().s // - or + (the latter only in the signed-operand family) or not
 		p.i++
-		op := "-"
-		if isNot {
-			op = "not"
-		}
 		var c *node
 		if p.tb.unaryLoose && isMinus {
 			c = p.bin(4)
